@@ -141,6 +141,8 @@ Expect(ev) ==
             IF Locked(w) THEN [def |-> FALSE, pre |-> TRUE, w2 |-> w, foot |-> {}] ELSE R(TRUE, w, {})
       [] ev.op = "Reset" ->
             IF PreReset(w) THEN R(TRUE, DoReset(w), {}) ELSE R(FALSE, w, {})
+      [] ev.op = "Load" ->    \* the world continues as the one its dump was loaded into
+            IF PreLoad(w) THEN R(TRUE, DoLoad(w), Alive(w)) ELSE [def |-> FALSE, pre |-> TRUE, w2 |-> w, foot |-> {}]
       [] OTHER -> [def |-> FALSE, pre |-> TRUE, w2 |-> w, foot |-> {}]
 
 (***************************************************************************)
@@ -193,6 +195,7 @@ CheckOp(ev) ==
         vPanic ==
             IF x.pre /\ ev.panic
             THEN (IF ev.op \in {"QOpen", "QNext", "QClose", "DumpLoad"} THEN {}
+                  ELSE IF ev.op = "Load" THEN {V("C17.load-panicked", ev.msg)}
                   ELSE IF Locked(w) THEN {V("C07.read-failed", ev.op)}   \* allowed on a locked world, but failed
                   ELSE {V(IF RelTouched(ev) THEN "C04.valid-call-panicked" ELSE "C01.valid-call-panicked", ev.op)})
             ELSE IF ~x.pre /\ ~ev.panic
@@ -206,6 +209,7 @@ CheckOp(ev) ==
         vAlive == {V("C02.alive-mismatch", h) : h \in {g \in SetOf(ev.st.alive) : g \notin shouldLive}}
                   \cup {V("C02.alive-mismatch", h) : h \in {g \in shouldLive : g \notin SetOf(ev.st.alive)}}
                   \cup {V("C02.alive-mismatch", h) : h \in {g \in SetOf(ev.st.dead) : g \in shouldLive}}
+                  \cup (IF ev.op = "Load" /\ SetOf(ev.st.alive) # shouldLive THEN {V("C17.alive", ev.st.alive)} ELSE {})
         vCount == IF ev.st.used # Cardinality(shouldLive)
                   THEN {V(IF ~x.pre \/ ev.panic THEN (IF lockMis THEN "C07.effect-after-panic" ELSE "C10.state-changed")
                           ELSE "C02.count", ev.st.used)}
@@ -215,6 +219,7 @@ CheckOp(ev) ==
             IF ~x.pre \/ ev.panic THEN (IF lockMis THEN "C07.effect-after-panic" ELSE "C10.state-changed")
             ELSE IF ev.op = "Shrink" THEN "C15.visible"
             ELSE IF ev.op = "Reset" THEN "C16.diverge"
+            ELSE IF ev.op = "Load" THEN "C17.loaded-world"
             ELSE IF h \notin x.foot THEN (IF kind = "t" THEN "C04.target" ELSE IF isBatch THEN "C06.unselected" ELSE "C01.other-entity")
             ELSE IF isBatch THEN "C06.state"
             ELSE IF kind = "t" THEN "C04.target"
